@@ -27,11 +27,17 @@ Unstable(ev) ==
 ModelOK(ev, sw, jw) == /\ Len(ev.o0) = Len(sw) /\ \A i \in 1..Len(sw) : Conforms(ev.o0[i], ev.ast, sw[i])
                        /\ Len(ev.o1) = Len(jw) /\ \A i \in 1..Len(jw) : Conforms(ev.o1[i], ev.ast, jw[i])
 
+\* a key with a backslash cannot be named by the JSON accessor (gjson path syntax; `X\` reads the field `X`): what a
+\* condition on such a key matches is an accessor matter outside this property - only the text round trip is judged
+RECURSIVE HasBSKey(_)
+HasBSKey(c) == IF c.k = "leaf" THEN \E i \in 1..Len(c.key) : c.key[i] = BS
+               ELSE \E j \in 1..Len(c.sub) : HasBSKey(c.sub[j])
+
 WhyTree(ev, sw, jw) ==
     (IF ev.ok THEN {} ELSE {IF ev.e = "rt" THEN "check" ELSE "parse"})
     \cup (IF ev.ok /\ ~ev.chk THEN {"unchecked"} ELSE {})
     \cup (IF ev.ok /\ ev.name # ev.pfx THEN {"name"} ELSE {})
-    \cup (IF ev.ok /\ ~ModelOK(ev, sw, jw) THEN {"model"} ELSE {})
+    \cup (IF ev.ok /\ ~HasBSKey(ev.ast) /\ ~ModelOK(ev, sw, jw) THEN {"model"} ELSE {})
 
 SafeKey(t) == t # <<>> /\ \A k \in 1..Len(t) : t[k] # BS       \* gjson paths cannot name keys with a backslash
 Elems(t) == LET sp == Split(t) IN {sp[k] : k \in 1..Len(sp)}
